@@ -9,7 +9,7 @@ python3 selftest/run.py --benign-only --out $L/benign.json > $L/benign.log 2>&1 
 for r in $(ls -d benign/*/ | xargs -n1 basename); do
   python3 selftest/run.py --corpus-only --only benign/$r/ --out $L/corpus-$r.json > $L/corpus-$r.log 2>&1 &
 done
-for r in r1 r2 r3 r4 r5 r6 r7 r8; do
+for r in r1 r2 r3 r4 r5 r6 r7 r8 r9; do
   ls seeded | grep -q "^$r-" && python3 tools/refresh_seeds.py $r- > $L/seeds-$r.log 2>&1 &
 done
 wait
